@@ -14,7 +14,7 @@ class Check(PropertyCheck):
     case_type = "(N * list (N * option N) * list (N * option N))"
     shard = 300
     rule = ("protocol versions 4..14 x current NCP values per setting (below / equal / above the default, unreadable) x override sets "
-            "(new values for default and non-default settings, disabled settings, empty) x per-setting accept/reject answers (every rejection status of the family); "
+            "(new values for default and non-default settings, disabled settings, empty) x per-setting accept/reject answers (every rejection status of the family), also after an earlier call with other overrides on the same object; "
             "non-trivial = at least one override or one current value at/above a default; distinct by (version, overrides, current)")
     assumptions = ["override names are valid keys of the version's schema (others are rejected by voluptuous before write_config acts)"]
 
@@ -69,6 +69,20 @@ class Check(PropertyCheck):
                         cur[k] = rng.choice([None, 0, 3, 12, 250])
                 answers = {k: rng.choice([0, 0, 0, 1, 0x35]) for k in set(cur) | set(user)}
                 cases.append({"v": v, "user": user, "current": cur, "answers": answers})
+            # the write is a function of (version, what the NCP reports, THIS call's overrides): an earlier call on the same
+            # EZSP object (the application's later reset writes the configuration again) with other overrides leaves nothing behind
+            for _ in range(6 if tier == "quick" else 60):
+                prior = {}
+                for k in rng.sample(nondef or keys, min(3, len(nondef or keys))) + rng.sample(keys, 2):
+                    prior[k] = self._valid_value(sch, k, rng)
+                user = {}
+                if rng.random() < 0.5:
+                    k = rng.choice(keys)
+                    user[k] = self._valid_value(sch, k, rng)
+                cur = {name: min(0xFFFF, c.value + rng.randrange(0, 40)) for name, c in defaults.items()}
+                for k in list(prior) + list(user) + [c for c in CAPACITY if c in keys]:
+                    cur.setdefault(k, rng.choice([12, 100, 250, 500]))
+                cases.append({"v": v, "user": user, "current": cur, "answers": {}, "prior": prior})
             # every rejection status (some could steer the library: out of memory, invalid id, ...): one setting rejected
             # with it while the NCP reports smaller values for all defaults -- every other default is still written
             sts = sorted({int(m) for m in t.EzspStatus} - {0})
@@ -128,6 +142,12 @@ class Check(PropertyCheck):
             raise AssertionError(name)
 
         self.stack.script_commands(ez, handler)
+        if case.get("prior") is not None:
+            try:
+                self.loop.run_until_complete(ez.write_config(dict(case["prior"])))
+            except BaseException as e:  # noqa
+                return {"raised": "earlier call: " + repr(e), "writes": writes}
+            del writes[:]
         try:
             self.loop.run_until_complete(ez.write_config(dict(case["user"])))
         except BaseException as e:  # noqa
@@ -180,6 +200,12 @@ class Check(PropertyCheck):
             elif n in CAPACITY and cur.get(n) is not None and val <= cur[n]:
                 return (f"capacity setting {n} is lowered/rewritten to {val} although the NCP reports {cur[n]} "
                         f"(not user-supplied, EZSP v{case['v']})")
+        if case.get("prior") is not None:
+            for w in cw:
+                n = w[1]
+                if n in case["prior"] and n not in user and n not in {c.config_id.name for c in cfg.DEFAULT_CONFIG[case["v"]] if isinstance(c, cfg.RuntimeConfig)}:
+                    return (f"{n}={w[3]} was written although neither this call's overrides nor the defaults of EZSP v{case['v']} name it: "
+                            f"it was an override of an EARLIER call on the same object")
         for n, v in user.items():
             if v is not None and n not in names:
                 return f"user value {n}={v} not written"
